@@ -39,9 +39,7 @@ type secretRun struct {
 }
 
 func (r *secretRun) mon(s string) {
-	if len(r.st.Monitors) < 80 {
-		r.st.Monitors = append(r.st.Monitors, s)
-	}
+	addMonitor(&r.st.Monitors, s)
 }
 
 type secret struct {
